@@ -309,8 +309,11 @@ def gen_payload(op, rng, version):
     if op == "get_attribute_list":
         pool = ["Name", "State", "Object Type", "Cryptographic Algorithm", "Cryptographic Length", "Unique Identifier",
                 "Initial Date", "Cryptographic Usage Mask", "Activation Date", "Object Group"]
-        if version < 20:        # KMIP 2.0 sends attribute references (tags): only standard names can travel
+        if version < 20:        # KMIP 2.0 sends attribute references (tags): only standard names can travel as tags
             pool += ["Operation Policy Name", "x-zeta", "x-Alpha", "x-"]
+        elif rng.random() < 0.5:
+            # ... vendor attributes travel as Attribute Reference STRUCTURES, next to the tags of the standard ones
+            pool += ["x-zeta", "x-Alpha", "x-Colour"]
         return {"uid": g_uid(rng), "names": rng.sample(pool, rng.randrange(1, len(pool)))}
     if op == "encrypt":
         s = {"uid": g_uid(rng), "data": g_bytes(rng)["hex"]}
